@@ -9,3 +9,4 @@ EXPLANATION = (
 def check(ctx, prog):
     process.rule_liveness(ctx, prog)
     process.rule_marker_parent(ctx, prog)  # scope: only the freshness of the completion flags belongs to C18
+    process.rule_worker_threads(ctx, prog)
